@@ -6,6 +6,8 @@ package main
 // back to the quantified query.
 
 import (
+	"fmt"
+	"os"
 	"sort"
 	"strings"
 )
@@ -111,6 +113,9 @@ func (q *qelim) skolemise(t *Term, prove bool) *Term {
 	case "ite":
 		if hasQuant(t.Args[0]) {
 			if t.S != BoolS {
+				if os.Getenv("GOVC_DEBUG") != "" {
+					fmt.Fprintf(os.Stderr, "qelim: non-boolean ite with a quantified condition: %.300s\n", t.String())
+				}
 				q.failed = true
 				return t
 			}
@@ -124,6 +129,9 @@ func (q *qelim) skolemise(t *Term, prove bool) *Term {
 		// boolean equivalence with quantifiers inside: split into two implications
 		a, b := t.Args[0], t.Args[1]
 		if a.S != BoolS {
+			if os.Getenv("GOVC_DEBUG") != "" {
+				fmt.Fprintf(os.Stderr, "qelim: non-boolean equality over a quantifier: %.300s\n", t.String())
+			}
 			q.failed = true
 			return t
 		}
@@ -156,6 +164,9 @@ func (q *qelim) skolemise(t *Term, prove bool) *Term {
 			q.addCand(BVSub(hi, BV(1, hi.S.W)))
 		}
 	default:
+		if os.Getenv("GOVC_DEBUG") != "" {
+			fmt.Fprintf(os.Stderr, "qelim: unsupported %s (sort %v) around a quantifier\n", t.Op, t.S)
+		}
 		q.failed = true
 		return t
 	}
@@ -292,6 +303,9 @@ func (q *qelim) instantiate1(t *Term, prove bool, depth int) *Term {
 	case "forall", "exists":
 		goalLike := (t.Op == "forall") == prove
 		if goalLike || depth > 3 {
+			if os.Getenv("GOVC_DEBUG") != "" {
+				fmt.Fprintf(os.Stderr, "qelim: pass 2 meets a goal-like quantifier (%v) or depth %d\n", goalLike, depth)
+			}
 			q.failed = true
 			return t
 		}
@@ -319,15 +333,15 @@ func (q *qelim) instantiate1(t *Term, prove bool, depth int) *Term {
 				}
 			}
 			cands = uniq
-			if len(cands) > 40 {
+			if len(cands) > 120 {
 				// keep every skolem constant (a hypothesis guarded by its own skolemised condition needs it)
-				keep := cands[:40:40]
+				keep := cands[:120:120]
 				inKeep := map[*Term]bool{}
 				for _, c := range keep {
 					inKeep[c] = true
 				}
-				for _, c := range cands[40:] {
-					if c.Op == "var" && strings.HasPrefix(c.Name, "sk!") && !inKeep[c] && len(keep) < 80 {
+				for _, c := range cands[120:] {
+					if c.Op == "var" && strings.HasPrefix(c.Name, "sk!") && !inKeep[c] && len(keep) < 160 {
 						keep = append(keep, c)
 					}
 				}
@@ -346,6 +360,9 @@ func (q *qelim) instantiate1(t *Term, prove bool, depth int) *Term {
 		}
 		return Or(parts...)
 	}
+	if os.Getenv("GOVC_DEBUG") != "" {
+		fmt.Fprintf(os.Stderr, "qelim: pass 2 unsupported %s (sort %v)\n", t.Op, t.S)
+	}
 	q.failed = true
 	return t
 }
@@ -359,6 +376,9 @@ func qfVersion(assumptions []*Term, goal *Term) (as []*Term, g *Term, ok bool) {
 		as[i] = q.skolemise(a, false)
 	}
 	if q.failed {
+		if os.Getenv("GOVC_DEBUG") != "" {
+			fmt.Fprintf(os.Stderr, "qelim: pass 1 failed\n")
+		}
 		return nil, nil, false
 	}
 	// select indices, two rounds (instances introduce reads of older arrays)
@@ -433,10 +453,16 @@ func qfVersion(assumptions []*Term, goal *Term) (as []*Term, g *Term, ok bool) {
 	}
 	for _, a := range out {
 		if hasQuant(a) {
+			if os.Getenv("GOVC_DEBUG") != "" {
+				fmt.Fprintf(os.Stderr, "qelim: a hypothesis keeps a quantifier: %.300s\n", a.String())
+			}
 			return nil, nil, false
 		}
 	}
 	if hasQuant(g2) {
+		if os.Getenv("GOVC_DEBUG") != "" {
+			fmt.Fprintf(os.Stderr, "qelim: the goal keeps a quantifier\n")
+		}
 		return nil, nil, false
 	}
 	return out, g2, true
